@@ -55,6 +55,62 @@ PROPS = {
             "bytecode shorter than 2^31 bytes, fewer than 2^32 cards per function",
         ],
     ),
+    "C01": dict(
+        prop_file="Properties/C01.v",
+        check_module="C01Check",
+        theorems={t: [] for t in ["C01_deterministic", "C01_fuel_monotone", "C01_eval_fuel_monotone"]},
+        n_quick=240, n_thorough=3000,
+        gen_timeout=3000,
+        gates=["ok", "globals>16", "return_in_loop", "nested_loops", "call.fn_argument", "dyncall.variable",
+               "closure.depth2", "closure.depth3", "closure.arity3", "closure.in_loop", "closure.in_submodule",
+               "closure.returned", "closure.in_array", "closure.writes_captured", "closure.loop_idiom",
+               "closure.siblings", "table.alias", "std.callback", "std.key_function", "native.call1",
+               "value.native_function", "call.via_import", "reals", "while", "for_each", "array",
+               "corpus.R-1b", "corpus.R-2a", "corpus.R-2b", "corpus.R-3", "corpus.R-4", "corpus.R-5"],
+        rule="the six witness programs of findings/C01 first, then random WELL-SCOPED programs (RefScope.well_scoped, re-checked per case in Coq) from a kind- and "
+             "rank-directed generator: 1-5 functions plus leaf functions of arity 0-3 spread over up to four "
+             "(sub)modules with function / module / super imports, 2-24 globals, locals, if / else, while, repeat "
+             "and for-each nested to depth 2, early return from loops, function values and closures (nested <= 3, "
+             "0-3 parameters, created in loops / submodules / called functions, stored in tables, returned, passed, "
+             "called after the creating scope ended, sibling closures over one variable), tables with aliasing and "
+             "the property shorthand, arrays, the natives log1 / add2 / fail0 / call1 (re-entrant) also as native "
+             "function values, std.map / filter / any / min / max / sorted / to_array / *_by_key with script "
+             "callbacks, reals in a quarter of the programs; each program is compiled and run by the real crate in "
+             "a child process (value stack 16384, call stack 400, 400000 instructions); success or error kind, the "
+             "final globals by name as trees and the log of native calls are compared with "
+             "RefSem.eval_program; resource errors (Timeout, Stackoverflow, CallStackOverflow, OutOfMemory) are "
+             "skipped and counted; non-trivial = the program has >= 6 of the counted features; distinct = distinct "
+             "case term",
+        trusted_base=COMMON_TB + [
+            "the reference semantics RefSem.v is the specification here: a hand-written big-step evaluator over "
+            "names and cells (no stack, no indices, no bytecode); there is no model of the compiler or VM in this check",
+            "Coq's Floats.SpecFloat (SFadd, SFsub, SFmul, SFdiv, SFcompare, SFeqb) at binary64 for real arithmetic; "
+            "sf_of_Z / sf_to_i64 / Z_cmp_sf of Value.v (tied to the crate by C19)",
+            "StdlibGen.std_module: the card text of the std module as printed by the harness from "
+            "cao_lang::stdlib::standard_library() (generated file, shared with the compiler model)",
+            "the harness printer from cao_lang::compiler::Module to CardAst terms (harness/src/c16.rs) and the "
+            "conversion of run-time values to trees (harness/src/c01.rs)",
+        ],
+        assumptions=[
+            "the claim is for well_scoped programs: every operand slot holds a card yielding exactly one value; "
+            "new locals (and Array, which needs a hidden local) only directly in function / closure / Repeat / "
+            "ForEach bodies; static calls and menu natives get exactly their arity; main does not Return",
+            "globals are compared by name with nil entries dropped on both sides (a never-assigned global below the "
+            "highest assigned slot reads as nil through the host API)",
+            "error KINDS are compared (the outermost variant), not payloads or traces (C15)",
+            "NaN payloads and signs are not compared (every NaN is printed as one canonical NaN)",
+            "table keys are nil, integers, strings and non-zero non-NaN reals; deeper than 6 levels a table is "
+            "printed as a cut mark on both sides",
+            "a key function of std.min / max / sorted(_by_key) that changes the key set of the table being "
+            "processed is outside the domain of the semantics (code 10, known_findings.json)",
+            "disagreements are LABELLED, not accepted, when the program or run falls in a known class: code 11 "
+            "RefScope.leaky (static over-approximation of R-2), 12 a Get past the end met a nil key (R-3), 13 "
+            "RefScope.shadowing (R-4), 14 the reference run ended with VarNotFound of a never-assigned global "
+            "(R-5); another defect showing only inside such a program would be reported under that label",
+            "the simulation theorem compile_correct against the compiler and VM models is not proved yet; its "
+            "statement is in Properties/C01.v",
+        ],
+    ),
     "C14": dict(
         prop_file="Properties/C14.v",
         check_module="C14Check",
